@@ -345,8 +345,12 @@ fn run_scenario(s: &Scenario, miri: bool, hb: Option<&Heartbeat>) -> Outcome {
 
     // ---- far-future waits
     // must the waiter return, judging only from what the signallers observably did?
+    // a file advance that began after every send had returned leaves nothing in flight: credit for any chunk is available then,
+    // whatever index the advance named (a later file, or a restart of the same one). Judged from the operations, not from the
+    // implementation's state, so that an advance which silently did nothing is seen.
+    let advance_frees_credit = ops.iter().any(|(ca, _, o, _)| matches!(o, Sig::Advance { .. }) && ops.iter().all(|(_, ds, x, _)| !matches!(x, Sig::Send { .. }) || ds < ca));
     let must_return = match s.kind {
-        Kind::Credit { chunk } => !matches!(ctl.wait_for_credit(chunk, Instant::now()), Err(CreditError::Timeout)),
+        Kind::Credit { chunk } => advance_frees_credit || !matches!(ctl.wait_for_credit(chunk, Instant::now()), Err(CreditError::Timeout)),
         Kind::Reconnect => {
             cancelled
                 || ops.iter().any(|(rc, _, o, ok)| {
